@@ -446,6 +446,8 @@ def symbolTest (sy : Syms) (s : RS) : R (Char → Bool) :=
 
 /-- `_read_character_states` / `_read_continuous_character_values` for the row at position `r` of `rows` -/
 def readStates (symOk : Char → Bool) (r : Nat) (s : RS) : R RS := do
+  -- `char_block[taxon]`: the row must exist (an index out of range would be the model's `IndexError`; `rowFor_in_range`)
+  if r ≥ s.rows.length then .error (.internal "row index out of range") else
   let nchar := s.nchar.getD 0
   let cont := s.dataType == .continuous
   let s := if s.interleave then { s with cfg := { s.cfg with eol := true } } else s
@@ -567,7 +569,8 @@ def charsBlock (sy : Syms) (s : RS) : R RS := do
 /-- `_get_char_matrix(title)`: position of the matrix among the matrices created so far -/
 def getCharMatrix (title : Option (List Char)) (s : RS) : R Nat :=
   match title with
-  | none => if s.matTitles.length == 1 then pure 0 else perr .nexus      -- NoCharacterBlocksFoundError / LinkRequiredError
+  | none => if s.matTitles.length == 0 then perr .nexus      -- NoCharacterBlocksFoundError
+            else pure (s.matTitles.length - 1)                -- without LINK CHARACTERS: the character block that precedes
   | some t =>
     let found := (List.range s.matTitles.length).filter (fun j =>
       match (s.matTitles[j]?).bind id with
